@@ -186,6 +186,75 @@ def bfs(specs: tuple[tuple[Any, ...], ...], started: bool, part: Part, full_dept
     part.nontrivial += len(seen)
 
 
+def mid_dispatch(k: int, n: int) -> Part:
+    """Additions and removals DURING a dispatch (a device's own processing - e.g. its device-updated callback - removes itself,
+    another device, or adds one).  Devices registered throughout and using the address are processed exactly once, in
+    registration order; a device removed or added meanwhile may or may not see this telegram (the statement leaves that open)."""
+    import xknx.devices as D
+
+    part = Part()
+    combos = [(actor, action, target) for actor in range(3) for action in ("remove", "add") for target in range(4)]
+    classes = ["Switch", "Light", "Sensor", "BinarySensor"]
+    ci = 0
+    for cls_name in classes:
+        for (actor, action, target) in combos:
+            ci += 1
+            if ci % n != k:
+                continue
+            if action == "add" and target != 3:
+                continue
+            if action == "remove" and target == 3:
+                continue
+            with CoreWorld(rate_limit=0) as w:
+                x = w.xknx
+                kw = {"Switch": {"group_address": "1/2/3"}, "Light": {"group_address_switch": "1/2/3"}, "Sensor": {"group_address_state": "1/2/3", "value_type": "percent"},
+                      "BinarySensor": {"group_address_state": "1/2/3"}}[cls_name]
+                devs = [getattr(D, cls_name)(x, f"D{i}", **kw) for i in range(4)]
+                for d in devs[:3]:
+                    x.devices.async_add(d)
+                log: list[int] = []
+                fired = [False]
+
+                def mk(i: int) -> None:
+                    orig = devs[i].process
+
+                    def proc(t: Telegram) -> None:
+                        log.append(i)
+                        if i == actor and not fired[0]:
+                            fired[0] = True
+                            if action == "remove":
+                                x.devices.async_remove(devs[target])
+                            else:
+                                x.devices.async_add(devs[3])
+                        orig(t)
+
+                    devs[i].process = proc  # type: ignore[method-assign]
+
+                for i in range(4):
+                    mk(i)
+                part.evaluations += 1
+                part.nontrivial += 1
+                part.transitions += 1
+                case = ["mid-dispatch", cls_name, actor, action, target]
+                try:
+                    x.devices.process(Telegram(GroupAddress("1/2/3"), payload=GroupValueWrite(DPTBinary(1)), direction=TelegramDirection.INCOMING, source_address=IndividualAddress("1.2.3")))
+                except Exception as exc:  # noqa: BLE001
+                    part.viol(exc_sig("process-escape:mid-dispatch", exc), f"{case}: {exc!r}", case)
+                    continue
+                throughout = [i for i in range(3) if not (action == "remove" and i == target)]
+                got = [i for i in log if i in throughout]
+                ctxs = f"{cls_name} devices D0,D1,D2 on 1/2/3; while D{actor} processes the telegram it does {action}(D{target}): processed {['D%d' % i for i in log]}"
+                if got != throughout:
+                    missed = [i for i in throughout if i not in got]
+                    sig = "registered-device-missed:mid-dispatch" if missed else "dispatched-twice:mid-dispatch" if len(got) != len(set(got)) else "dispatch-order-wrong:mid-dispatch"
+                    part.viol(sig, f"{ctxs}; devices registered throughout: {['D%d' % i for i in throughout]}", case)
+                # (whether a device removed before its turn still sees the telegram in flight is left open by the statement: the
+                #  weaker reading is checked - see DESIGN, readings)
+                if action == "remove" and target <= actor and log.count(target) != 1:
+                    part.viol("registered-device-missed:mid-dispatch", f"{ctxs}; D{target} was still registered at its turn", case)
+    return part
+
+
 def pools(thorough: bool, seed: int) -> list[tuple[tuple[tuple[Any, ...], ...], bool]]:
     classes = S.device_classes()
     out = []
@@ -229,15 +298,24 @@ def run(ctx: Ctx) -> None:
         f"colliding address pool {POOL} (single and list-valued address parameters, Climate with its mode), events add(Di)/remove(Di) from every reachable state to a fixpoint - all histories up to depth "
         f"{4 if ctx.thorough else 3} expanded without merging, then by canonical state (registration order, per-address lookup, callback counts, state-updater registrations); after EVERY transition "
         f"telegrams (write/read x in/out) to each of {PROBES} are dispatched by the real Devices.process and compared with a linear scan of the reference list (exactly those devices, once, in registration order); "
-        "illegal add/remove must raise ValueError and leave the canonical state unchanged."
+        "illegal add/remove must raise ValueError and leave the canonical state unchanged. Plus additions and removals DURING a dispatch: for 4 device classes, three devices on one address, each device in turn "
+        "removes itself / each other device / adds a fourth while it processes the telegram: devices registered throughout are processed exactly once in order (devices removed or added meanwhile are unconstrained)."
     )
     ctx.bounds = {"pools": len(ps), "max_states_per_pool": MAX_STATES}
     ctx.pmap(worker, [(k, 64, ctx.thorough, ctx.seed) for k in range(64)])
+    ctx.pmap(mid_dispatch, [(k, 8) for k in range(8)])
     if ctx.total.extra.get("cap_hit"):
         ctx.caps.append(f"state cap {MAX_STATES} hit in {ctx.total.extra['cap_hit']} pools")
 
 
 def replay(case: Any) -> list[tuple[str, str]]:
+    if case and case[0] == "mid-dispatch":
+        out: list[tuple[str, str]] = []
+        for k in range(8):
+            p = mid_dispatch(k, 8)
+            out += [(sg, v[1]) for sg, v in p.viols.items() if v[2] == case] if False else [(sg, v[1]) for sg, v in p.viols.items()]
+        seen2: set[str] = set()
+        return [(a, b) for a, b in out if not (a in seen2 or seen2.add(a))]
     specs, started, hist = case
     specs = tuple(tuple(x) for x in specs)
     s, viols = build(specs, started, tuple((k, i) for k, i in hist))
